@@ -2,7 +2,7 @@
   drv_daemon — line protocol driver of the daemon model (Cjet.Daemon.Model).
 
   input  (one operation per line)
-    cfg localOnly=<0|1> auth=<0|1> maxMatchers=<n> initFetch=<n> defaultNs=<n> name=<hex> version=<hex>
+    cfg localOnly=<0|1> auth=<0|1> maxMatchers=<n> initFetch=<n> defaultNs=<n> minBits=<n> name=<hex> version=<hex>
     group <hex>                                         register a group name (load order)
     user <namehex> <passhex> <readonly> <admin> <json… | ->   credential record with its "auth" object
     connect <c> <ws> <local> <addrhex>
@@ -84,6 +84,7 @@ def stepLine (d : DState) (line : String) : DState × List String :=
       | "maxMatchers" => { c with maxMatchers := b.toNat?.getD c.maxMatchers }
       | "initFetch" => { c with initFetchTable := b.toNat?.getD c.initFetchTable }
       | "defaultNs" => { c with defaultTimeoutNs := b.toNat?.getD c.defaultTimeoutNs }
+      | "minBits" => { c with minTimeoutBits := (b.toNat?.map UInt64.ofNat).getD c.minTimeoutBits }
       | "name" => { c with name := (Hex.toBytes? b).getD c.name }
       | "version" => { c with version := (Hex.toBytes? b).getD c.version }
       | _ => c) d.cfg
